@@ -326,6 +326,9 @@ class InlineTranslator:
             new_terms.extend([Function(LOC, "unique", [], False)] * (max_arity - len(new_terms) + 1))
             new_body = rbody + list(elem.condition)
             new_minimizes.append(stm.update(body=new_body, terms=new_terms, weight=new_weight))
+        # the padding of the next unfolded statement has to be longer than these tuples as well
+        for new in new_minimizes:
+            self.minimize_tuples.append([new.weight, new.priority] + list(new.terms))
         return new_minimizes
 
     @staticmethod
